@@ -719,6 +719,33 @@ static void run_op(const std::vector<std::string> &w_, const std::string &line_,
         for (auto &x : a) if (x.k != Arg::CALL) BAD();
         uint8_t *base = a[0].snul ? bufs[0]->p : (uint8_t *)P(0);
         uint8_t *qbase = a[0].snul ? cp[0].data() : (uint8_t *)Q(0);
+        // allowed: the string (from the lowest pointer passed to its ORIGINAL terminator) is read and
+        // written, each delimiter string is read
+        {
+            int lowk = -1;
+            for (size_t k = 0; k < a.size(); k++)
+                if (!a[k].snul && (lowk < 0 || (a[k].b == a[lowk].b && a[k].off < a[lowk].off))) lowk = (int)k;
+            if (lowk >= 0)
+            {
+                bool one_buf = true;
+                for (size_t k = 0; k < a.size(); k++) if (!a[k].snul && a[k].b != a[lowk].b) one_buf = false;
+                if (one_buf)
+                {
+                    size_t l0 = qlen(lowk) + 1;
+                    allowR(lowk, 0, l0); allowW(lowk, 0, l0);
+                    for (size_t k = 0; k < a.size(); k++)
+                    {
+                        const uint8_t *dq = cp[a[k].b2].data() + a[k].off2;
+                        size_t dl = strnlen((const char *)dq, cn[a[k].b2] - a[k].off2) + 1;
+                        uintptr_t x = (uintptr_t)(bufs[a[k].b2]->p + a[k].off2);
+                        Span &sp = AR[a[k].b2];
+                        if (x < sp.lo) sp.lo = x;
+                        if (x + dl > sp.hi) sp.hi = x + dl;
+                    }
+                }
+                else exact = false;
+            }
+        }
         char *save = nullptr, *qsave = nullptr;
         bool first = true;
         size_t toks = 0;
